@@ -85,7 +85,7 @@ class LoopSpec(object):
     for-loops 'seq'/'x'.  havoc(I, fr) may havoc extra heap state (called after the automatic havoc of
     assigned locals and assigned self-fields)."""
 
-    def __init__(self, name, inv, havoc=None, quant=False, nia=False, extra_locals=(), keep=(), after=None):
+    def __init__(self, name, inv, havoc=None, quant=False, nia=False, extra_locals=(), keep=(), after=None, construct=None, check=None):
         self.name = name
         self.inv = inv
         self.havoc = havoc
@@ -94,13 +94,20 @@ class LoopSpec(object):
         self.extra_locals = extra_locals
         self.keep = set(keep)
         self.after = after
+        self.construct = construct   # construct(I, fr, it): put the exact loop-head state for iteration it['k'] in place
+        self.check = check           # check(I, fr, it) -> prove-only clauses (extensional equality with the constructed form)
 
     # -- helpers
     def _prove_inv(self, I, fr, it, phase):
         for cid, b in self.inv(I, fr, it):
             I.ctx.prove(b, '%s.%s.%s' % (self.name, phase, cid))
+        if self.check is not None:
+            for cid, b in self.check(I, fr, it):
+                I.ctx.prove(b, '%s.%s.%s' % (self.name, phase, cid))
 
     def _assume_inv(self, I, fr, it):
+        if self.construct is not None:
+            self.construct(I, fr, it)
         for cid, b in self.inv(I, fr, it):
             I.ctx.assume(b, quant=self.quant)
 
